@@ -3,6 +3,7 @@ from fractions import Fraction as F
 from common import cq, cb
 from plotink import plot_utils
 
+import common
 ID = "C08"
 COQ_HEADER = "From Plotink Require Import Base.Prelude Model.Clip Corr.C08.\nOpen Scope Q_scope."
 COQ_RUN = "run08"
@@ -81,3 +82,8 @@ def shrink(c):
         for nv in (F(round(c["seg"][i])), F(0)):
             if nv != c["seg"][i]:
                 s = list(c["seg"]); s[i] = nv; yield dict(c, seg=s)
+
+
+def static_obligations(work, tier):
+    """the loop-free kernels are re-translated from /repo's source on every run and proved equal to the hand model"""
+    return common.kernel_obligations(work, ID, "plotink/plot_utils.py", ['clip_code'])
